@@ -1,5 +1,5 @@
 CONSTANTS
-  Ops = {"c0", "c1", "c2", "c3", "c4", "c5", "c6", "c7", "c8", "c9", "c10", "c11", "c12", "c13"}
+  Ops = {"c0", "c1", "c2", "c3", "c4", "c5", "c6", "c7", "c8", "c9", "c10", "c11", "c12", "c13", "c14", "c15", "c16"}
   MaxLen = 2
 INIT Init
 NEXT Next
